@@ -300,12 +300,25 @@ def desugar_tables(fn: ast.AST, module_top: dict) -> bool:
 # `for x in (a, b, c): body`  ->  body[a/x]; body[b/x]; body[c/x]
 
 
-def might_unroll(node: ast.AST) -> bool:
-    return any(isinstance(n, ast.For) and isinstance(n.iter, (ast.Tuple, ast.List)) for n in ast.walk(node))
+def _const_seq(module_top, e):
+    """the display behind a loop's iterable: a literal tuple / list, or a module-level name bound once to one"""
+    if isinstance(e, (ast.Tuple, ast.List)):
+        return e
+    if isinstance(e, ast.Name) and module_top is not None:
+        s = module_top.get(e.id)
+        if isinstance(s, (ast.Assign, ast.AnnAssign)) and isinstance(s.value, (ast.Tuple, ast.List)) \
+                and all(isinstance(x, (ast.Constant, ast.Attribute, ast.Name)) for x in s.value.elts):
+            return s.value
+    return None
 
 
-def unroll_literal_loops(fn: ast.AST) -> bool:
+def might_unroll(node: ast.AST, module_top=None) -> bool:
+    return any(isinstance(n, ast.For) and _const_seq(module_top, n.iter) is not None for n in ast.walk(node))
+
+
+def unroll_literal_loops(fn: ast.AST, module_top=None) -> bool:
     changed = False
+    local_stores = {n.id for n in ast.walk(fn) if isinstance(n, ast.Name) and isinstance(n.ctx, (ast.Store, ast.Del))} | {a.arg for a in ast.walk(fn) if isinstance(a, ast.arg)}
 
     class S(ast.NodeTransformer):
         def __init__(self, name, repl):
@@ -316,10 +329,16 @@ def unroll_literal_loops(fn: ast.AST) -> bool:
                 return copy.deepcopy(self.repl)
             return n
 
+    def seq(loop):
+        if isinstance(loop.iter, ast.Name) and loop.iter.id in local_stores:
+            return None
+        return _const_seq(module_top, loop.iter)
+
     def ok(loop):
-        if loop.orelse or not isinstance(loop.target, ast.Name) or not (1 <= len(loop.iter.elts) <= 6):
+        sq = seq(loop)
+        if sq is None or loop.orelse or not isinstance(loop.target, ast.Name) or not (1 <= len(sq.elts) <= 16):
             return False
-        if any(isinstance(e, ast.Starred) for e in loop.iter.elts):
+        if any(isinstance(e, ast.Starred) for e in sq.elts):
             return False
         for b in loop.body:
             for n in ast.walk(b):
@@ -334,9 +353,9 @@ def unroll_literal_loops(fn: ast.AST) -> bool:
         i = 0
         while i < len(blk):
             s = blk[i]
-            if isinstance(s, ast.For) and isinstance(s.iter, (ast.Tuple, ast.List)) and ok(s):
+            if isinstance(s, ast.For) and ok(s):
                 out = []
-                for e in s.iter.elts:
+                for e in seq(s).elts:
                     for b in s.body:
                         out.append(S(s.target.id, e).visit(copy.deepcopy(b)))
                 blk[i : i + 1] = out
@@ -415,7 +434,7 @@ def _arm_pattern(test):
 
 def might_matchify(node: ast.AST) -> bool:
     for n in ast.walk(node):
-        if isinstance(n, ast.If) and len(n.orelse) == 1 and isinstance(n.orelse[0], ast.If) and _arm_pattern(n.test) is not None:
+        if isinstance(n, ast.If) and _arm_pattern(n.test) is not None:
             return True
     return False
 
@@ -455,15 +474,59 @@ def matchify(fn: ast.AST) -> bool:
         m = ast.Match(subj[1], cases)
         return ast.copy_location(m, s)
 
+    def ends(blk):
+        if not blk:
+            return False
+        t = blk[-1]
+        if isinstance(t, (ast.Return, ast.Raise, ast.Continue, ast.Break)):
+            return True
+        return isinstance(t, ast.If) and ends(t.body) and ends(t.orelse)
+
+    def convert_run(blk, i):
+        """`if S == a: return ..` / `if S == b: return ..` / rest   ->   match S: case a / case b / case _: rest"""
+        run = []
+        subj = None
+        j = i
+        while j < len(blk):
+            s = blk[j]
+            if not (isinstance(s, ast.If) and not s.orelse and ends(s.body)):
+                break
+            ap = _arm_pattern(s.test)
+            if ap is None or ap[3] != "value" or not isinstance(ap[1], (ast.Name, ast.Attribute)):
+                break
+            if subj is None:
+                subj = ap
+            elif subj[0] != ap[0]:
+                break
+            run.append((ap[2], s.body))
+            j += 1
+        if len(run) < 2:
+            return None
+        cases = [ast.match_case(p, None, list(b)) for p, b in run]
+        rest = blk[j:]
+        if rest:
+            cases.append(ast.match_case(ast.MatchAs(None, None), None, list(rest)))
+        m = ast.copy_location(ast.Match(subj[1], cases), blk[i])
+        return m, j
+
     def rewrite(blk):
         nonlocal changed
-        for i, s in enumerate(blk):
+        i = 0
+        while i < len(blk):
+            s = blk[i]
             if isinstance(s, ast.If):
                 m = convert(s)
                 if m is not None:
                     blk[i] = m
                     s = m
                     changed = True
+                else:
+                    r = convert_run(blk, i)
+                    if r is not None:
+                        m, j = r
+                        blk[i:] = [m]
+                        s = m
+                        changed = True
             for fld in ("body", "orelse", "finalbody"):
                 b = getattr(s, fld, None)
                 if isinstance(b, list) and b and isinstance(b[0], ast.stmt) and not isinstance(s, (ast.FunctionDef, ast.AsyncFunctionDef, ast.ClassDef)):
@@ -474,6 +537,7 @@ def matchify(fn: ast.AST) -> bool:
             if isinstance(s, ast.Match):
                 for c in s.cases:
                     rewrite(c.body)
+            i += 1
 
     rewrite(fn.body)
     if changed:
